@@ -190,6 +190,26 @@ fn scenario(w: &mut World, ctx: &RunCtx, states: &mut Vec<u64>) -> Result<(), Vi
             w.net.jitter_ms = 20;
         }
         check_peers(w, &st)?;
+        // payload is accepted only from a party that proved possession of a mutually trusted key
+        if st.writes > 0 {
+            if let StepKind::Deliver { wire, .. } = st.kind {
+                let v = st.node.unwrap_or(0);
+                let ok = match (w.wire[wire].from_node, &w.wire[wire].origin) {
+                    (Some(u), Origin::Genuine) | (Some(u), Origin::Duplicate(_)) => mutual(w, v, u),
+                    _ => false,
+                };
+                w.count("c01_device_writes_checked");
+                // two ends that both enabled plain authenticate nothing after the handshake
+                let claimed = w.node_by_addr(w.wire[wire].src);
+                let both_plain = match claimed {
+                    Some(u) => w.nodes[u].cfg.algorithms.iter().any(|a| a == "plain") && w.nodes[v].cfg.algorithms.iter().any(|a| a == "plain"),
+                    None => false,
+                };
+                if !ok && !both_plain {
+                    return Err(Violation::new("mutual-trust", "payload-accepted-from-unproven-party", format!("n{} wrote payload to its interface for a datagram ({:?}, from n{:?}) whose sender did not prove possession of a mutually trusted key", v, w.wire[wire].origin, w.wire[wire].from_node)));
+                }
+            }
+        }
         if let Some((wire, v, pre, why)) = forged {
             if let StepKind::Deliver { wire: w2, accepted: true, .. } = st.kind {
                 if w2 == wire {
@@ -234,6 +254,16 @@ fn scenario(w: &mut World, ctx: &RunCtx, states: &mut Vec<u64>) -> Result<(), Vi
                 }
                 let d = w.wire[id].data.clone();
                 let (osrc, odst) = (w.wire[id].src, w.wire[id].dst);
+                // unsealed payload / routing information from the address of a handshake in progress
+                if w.ch.chance("unsealed_from_pending", 200) {
+                    let inner = mesh::ipv4_packet(mesh::tun_ip(1), mesh::tun_ip(0), b"VM-unsealed-payload-from-an-outsider");
+                    let mut v = vec![0u8];
+                    v.extend_from_slice(&inner);
+                    let dl = 1 + w.ch.choose("unsealed_delay", 30) as u64;
+                    w.inject(odst, osrc, v, dl, "unsealed-payload");
+                    w.inject(osrc, odst, vec![0u8; 40], 1, "unsealed-payload");
+                    w.count("c01_unsealed_payload_injected");
+                }
                 let kind = w.ch.weighted("forgery", &[3, 3, 2, 2, 2]);
                 let (data, tag): (Vec<u8>, &'static str) = match kind {
                     0 => {
@@ -327,6 +357,6 @@ impl Scenario for C01 {
     }
 
     fn expected_probes(&self) -> Vec<&'static str> {
-        vec!["c01_forged_to_fresh", "c01_forged_to_awaiting_pong", "c01_forged_to_awaiting_peng", "c01_forged_to_established", "c01_forged_to_established_lingering", "c01_mutual_pairs_connected", "c01_runs_with_untrusted_dial", "c01_restarts", "fault_corrupt", "fault_truncate"]
+        vec!["c01_unsealed_payload_injected", "c01_device_writes_checked", "c01_forged_to_fresh", "c01_forged_to_awaiting_pong", "c01_forged_to_awaiting_peng", "c01_forged_to_established", "c01_forged_to_established_lingering", "c01_mutual_pairs_connected", "c01_runs_with_untrusted_dial", "c01_restarts", "fault_corrupt", "fault_truncate"]
     }
 }
